@@ -444,6 +444,12 @@ SEQS = [("GO", "NEXT", "BACK", "GO"), ("GO", "GO", "SKIP", "END"), ("PING", "GO"
 
 
 def _traces(m: Any) -> Any:
+    """Traces of the 5 canned sequences. Runs with tracing off: every input is concrete here and the interpreter is not
+    this property's subject (the pythonic compilation that produced ``m`` is, and that ran under the tracer)."""
+    return common.native(_traces_body, m)
+
+
+def _traces_body(m: Any) -> Any:
     from xstate_statemachine import SyncInterpreter
 
     out = []
@@ -489,19 +495,27 @@ def pythonic_equiv(style: int, v0: int, v1: int, v2: int, v3: int) -> bool:
     from xstate_statemachine.exceptions import XStateMachineError
 
     base = P["base"]
+    if "style" in P and style != P["style"]:
+        return verdict(True, nontrivial=False)   # the other styles are separate work items
     T = {k: (min(base, n - 1) if base else 0) for k, n in TOGGLES.items()}
     for name, v in zip(P["vary"], [v0, v1, v2, v3]):
         T[name] = pick(v, TOGGLES[name])
     if T["shape"] == 3 and T["hist"]:
         T["hist"] = 0
     ctx0 = {"n": 1, "seen": []}
-    ref = create_machine(json_config(T, copy.deepcopy(ctx0)), logic=_json_logic())
-    want = (c18.fingerprint(ref), _traces(ref))
+    def observe(m: Any) -> Any:
+        return common.native(lambda: (c18.fingerprint(m), _traces_body(m)))
+
+    def fresh(ctx: Dict[str, Any]) -> Any:
+        return common.native(lambda: create_machine(json_config(T, copy.deepcopy(ctx)), logic=_json_logic()))
+
+    ref = fresh(ctx0)
+    want = observe(ref)
     why = None
     try:
         d = Definition(style, T, copy.deepcopy(ctx0))
         m1 = d.build()
-        got1 = (c18.fingerprint(m1), _traces(m1))
+        got1 = observe(m1)
         if got1[0] != want[0]:
             why = "structure differs from the JSON denotation: " + _first_diff(got1[0], want[0])
         elif got1[1] != want[1]:
@@ -510,13 +524,13 @@ def pythonic_equiv(style: int, v0: int, v1: int, v2: int, v3: int) -> bool:
             # second build from the same definition, after the first machine ran
             over = {"n": 2, "seen": ["x"]} if T["ctxo"] else None
             m2 = d.build(copy.deepcopy(over))
-            ref2 = create_machine(json_config(T, copy.deepcopy(over if over is not None else ctx0)), logic=_json_logic())
-            got2 = (c18.fingerprint(m2), _traces(m2))
-            want2 = (c18.fingerprint(ref2), _traces(ref2))
+            ref2 = fresh(over if over is not None else ctx0)
+            got2 = observe(m2)
+            want2 = observe(ref2)
             if got2 != want2:
                 why = "the SECOND build from one definition differs from a fresh machine: " + _first_diff(got2, want2)
-            elif (c18.fingerprint(m1), _traces(m1)) != want:
-                why = "the first machine changed after the second build: " + _first_diff((c18.fingerprint(m1), _traces(m1)), want)
+            elif observe(m1) != want:
+                why = "the first machine changed after the second build: " + _first_diff(observe(m1), want)
     except XStateMachineError as e:
         why = f"the Python definition was rejected: {type(e).__name__}: {e}"
     if why:
@@ -840,8 +854,9 @@ def items(tier: str, seed: int) -> List[Dict[str, Any]]:
     out: List[Dict[str, Any]] = []
     for gi, grp in enumerate(GROUPS):
         for base in ((0,) if quick and gi % 2 else (0, 1)):
-            out.append({"ob": "pythonic_equiv", "params": {"vary": grp, "base": base}, "timeout": 400 if quick else 1500,
-                        "label": f"pythonic_equiv[{'+'.join(grp)},base={'on' if base else 'off'}]"})
+            for style in range(3):
+                out.append({"ob": "pythonic_equiv", "params": {"vary": grp, "base": base, "style": style}, "timeout": 500 if quick else 1500,
+                            "label": f"pythonic_equiv[{STYLES[style]},{'+'.join(grp)},base={'on' if base else 'off'}]"})
     for gfix in range(len(GUARD_FORMS)):
         for kind in (0, 1):
             if quick:
